@@ -75,15 +75,17 @@ class VBool(V):
 
 
 class VFloat(V):
-    """IEEE float. kind 'f64' (python float / np.float64) or 'f32' (np.float32).
-    mode 'fp': t is a z3 FP term (bit exact). mode 'real': t is a z3 Real under the rounding-error model."""
+    """IEEE float. kind 'f64' (python float / np.float64) or 'f32' (np.float32); t is a z3 FP term (bit exact).
+    q: optional (num Int term, den positive power-of-two int) with value == num/den exactly (dyadic rationals that
+    arise from ints by exact operations); comparisons and float->int conversions then stay in integer arithmetic."""
 
-    __slots__ = ("t", "kind", "isnp")
+    __slots__ = ("t", "kind", "isnp", "q")
 
-    def __init__(self, t, kind="f64", isnp=False):
+    def __init__(self, t, kind="f64", isnp=False, q=None):
         self.t = t
         self.kind = kind
         self.isnp = isnp
+        self.q = q
 
     def __repr__(self):
         return "VFloat(%s:%s)" % (self.t, self.kind)
@@ -331,8 +333,9 @@ class TConst(T):
 
 
 class TOpaque(T):
-    def __init__(self, tag):
+    def __init__(self, tag, native=None):
         self.tag = tag
+        self.native = native  # factory of a representative native object (replay only)
 
     def __repr__(self):
         return "Opaque(%s)" % self.tag
